@@ -24,6 +24,12 @@ CHECKS = {
              "patch commits exist with one parent) holds initially and is preserved by every modelled command for all "
              "histories (C01_all_histories); opening a stack establishes the patch-ref mirror and every command keeps "
              "it. Scope exclusion stated in the theorem: `stg reset <entry> <patches>`."),
+    "C02": dict(category="proof", design_ref="DESIGN.md section 4/C02", note=HIST_NOTE, technique=HIST_TECH,
+        text="Theorems: in every recorded state the applied patches form a first-parent chain ending at the top "
+             "(preserved by every modelled command, all histories); when a set_head transaction completes (also on a "
+             "conflict halt) the branch is the recorded head = the transaction's head, or the roll-back failed and "
+             "nothing moved; a conflicting patch is an empty commit on top; the base is preserved by the 15 commands "
+             "that must not move it."),
     "C03": dict(category="proof", design_ref="DESIGN.md section 4/C03", note=PROTO_NOTE, technique=PROTO_TECH,
         text="Theorem C03_fault_atomic: outside three named known classes a failure at any program point yields exit 2 "
              "with refs and checked-out tree unchanged; refs move only in the final reference transaction. Every "
@@ -38,6 +44,12 @@ CHECKS = {
         text="Theorems over the abstract log: undo -n k = k-th state of the effective timeline, = k single undos; "
              "redo -n k = k-th entry of the redo stack, refused after any other operation; find_undo_state over the "
              "object store IS that walk; reset_to_state installs exactly the logged state."),
+    "C06": dict(category="proof", design_ref="DESIGN.md section 4/C06", note=HIST_NOTE, technique=HIST_TECH,
+        text="Theorems: parent grouping terminates, keeps <= MAX_PARENTS parents and every original parent reachable; "
+             "a new state commit reaches its previous state and every head/top/unapplied/hidden commit not already "
+             "recorded by the previous state; every command keeps every patch of every logged state reachable from "
+             "refs/stacks/<b> (Inv6, all histories); the log is append-only except for log --clear; gc that keeps the "
+             "closure of the refs keeps every logged patch."),
     "C07": dict(category="proof", design_ref="DESIGN.md section 4/C07", note=HIST_NOTE, technique=HIST_TECH,
         text="Theorems: list results of reorder/push/pop/delete are the documented ones; the four tree shortcuts, the "
              "temp-index path (git apply) and the work-tree merge all return the cell-wise three-way merge; "
@@ -48,6 +60,13 @@ CHECKS = {
              "disallowed nothing is touched; guarded commands and undo without --hard refuse while the index is "
              "unmerged; source ties: check_conflicts is called unguarded in push/pop/goto/float/sink/delete/new/"
              "squash/spill and CONFLICT_ERROR = 3."),
+    "C10": dict(category="proof", design_ref="DESIGN.md section 4/C10", note=HIST_NOTE, technique=HIST_TECH,
+        text="Theorem: the two-way merge model keeps every locally modified file or refuses; source ties: "
+             "discard_changes only under --hard in every command, read-tree --reset only in reset --hard and behind "
+             "fold's cleanliness check, cleanliness pre-checks present in push/pop/goto/float/sink. History-level "
+             "differential testing with dirty trees (--keep and not) plus a direct oracle comparing the content of "
+             "every modified / untracked file around each command. Partial: merge-recursive's own refusal and "
+             "untracked files are judged by the direct oracle only."),
     "C11": dict(category="proof", design_ref="DESIGN.md section 4/C11", note=PROTO_NOTE, technique=PROTO_TECH,
         text="Theorems: with a compare-and-swap on the state commit seen at LOAD time no interleaving loses an update "
              "(all 20 schedules, symbolic values); the log stays linear under every schedule; with the re-read value "
@@ -80,11 +99,30 @@ CHECKS = {
         note="Trusted: Coq kernel; hand transcription of winnow alt/opt/repeat semantics (validated function-level "
              "against stg verif-eval); gix Prefix::from_hex = 4..40 hex digits.",
         technique="Coq proof + extracted-model function-level differential testing + round-trip and end-to-end oracles"),
+    "C16": dict(category="proof", design_ref="DESIGN.md section 4/C16",
+        text="Theorems: opening a stack with AllowUninitialized/RequireInitialized leaves a mirrored repository "
+             "unchanged and never initialises; source tie: the regenerated command table shows every inspection "
+             "command and the shared revision-spec resolver use only those policies, run no transaction and call "
+             "nothing that writes (log: clear_state_log only under --clear). Direct oracle: full snapshot equality "
+             "around every inspection command line in every repository state of the corpus (incl. after "
+             "branch --clone, fix F10).",
+        note="Trusted: Coq kernel; translator (policies / write calls per command file); git subprocesses spawned by "
+             "inspection commands are read-only by git's contract.",
+        technique="Coq proof + regenerated command-table obligations + snapshot-equality enumeration"),
     "C19": dict(category="proof", design_ref="DESIGN.md section 4/C19", note=PROTO_NOTE, technique=PROTO_TECH,
         text="Theorems: one SIGINT before publication leaves the refs unchanged; inside the critical section the "
              "publication completes (refs, index, work tree of the completed command) with status 130; a roll-back "
              "is never reported; source tie: shape of signal::critical and of the handler. Fix F12 modelled. SIGINT is "
              "delivered at every program point of every corpus command."),
+    "C20": dict(category="proof", design_ref="DESIGN.md section 4/C20", note=HIST_NOTE, technique=
+        "Coq proof (no-panic by per-operation preconditions) + regenerated panic-site classification + "
+        "history-level differential testing + command-line fuzzing (search)",
+        text="Theorems: every non-panic outcome maps to 0/1/2/3 with the constants of the current source; name "
+             "derivation and locator/range resolution never panic; no modelled command panics from a well-formed "
+             "world (all commands except stg repair = known finding F6 and a pop shape the command line cannot "
+             "produce); every potential panic site of the modelled modules is in the reviewed list (regenerated). "
+             "Commands outside the model are searched by a command-line fuzzer over all sub-commands, options, "
+             "boundary arguments and repository states (not a proof)."),
 }
 
 NA_REASON = "check under construction in this build phase (see DESIGN.md section 8); no claim made yet"
